@@ -254,7 +254,24 @@ impl ProtobufDefGenerator {
                 .collect::<Vec<String>>()
                 .join(".")
         } else {
+            // a package is a dot separated list of identifiers: no empty components and, like
+            // the components derived from an object identifier above, no leading digit
             Self::model_name(&path.replace('_', "."), '.')
+                .split('.')
+                .filter(|component| !component.is_empty())
+                .map(|component| {
+                    if component
+                        .chars()
+                        .next()
+                        .map_or(false, |c| !c.is_alphabetic())
+                    {
+                        format!("_{}", component)
+                    } else {
+                        component.to_string()
+                    }
+                })
+                .collect::<Vec<String>>()
+                .join(".")
         }
     }
 }
